@@ -621,6 +621,9 @@ def ext_layer(run, rng, tier, model):
             run.count("xmut_" + me["kind"].split("+")[-1])
             run.count("ext_reader_%s" % ("same" if me["same"] else "other"))
             if i in errs and errs[i][0] == "CRASH":
+                if errs[i][1] == -1 and "not run" in errs[i][2]:
+                    run.count("ext_not_run_after_too_many_deaths")     # the deaths themselves are reported above
+                    continue
                 report_crash(run, m, l, me, errs[i], "ext")
                 continue
             if i in errs:
@@ -659,6 +662,9 @@ def leaf_layer(run, rng, tier, model):
                "replay_cmd": "echo '<command_line>' | <leafdrv>   and   | ocaml/modeldrv"}
         if i in ce:
             what, rc, err = ce[i]
+            if rc == -1 and "not run" in err:
+                run.count("leaf_not_run_after_too_many_deaths")
+                continue
             site = stack_site(err)
             run.violation("crash:leaf:%s" % (site[0] if site else what), dict(rep, what="leaf driver died (rc=%s): sanitizer report, abort or signal" % rc,
                                                                              summary=re.findall(r"(SUMMARY: [^\n]*|runtime error: [^\n]*)", err or "")[:3], frames=site, stderr_tail=(err or "")[-2500:]))
